@@ -2039,3 +2039,24 @@ def byte_only_from_reader(prog):
         if not tw or any(t is None or int(t) == 1 for t in tw):
             return False
     return True
+
+
+def reader_effects_rule(prog, res, rule='reader-effects'):
+    """a record reader only fills the members that the record encodes: reading a group record must
+    not disturb the parameters already attached to that group (parameter records may precede their
+    group record), and must not touch other groups"""
+    E = FX.get(prog)
+    allowed = {
+        'ezc3d::ParametersNS::GroupNS::Group::read': {'_name', '_description', '_isLocked'},
+        'ezc3d::ParametersNS::GroupNS::Parameter::read': {'_name', '_description', '_isLocked', '_data_type', '_dimension', '_param_data_int', '_param_data_float', '_param_data_string'},
+    }
+    for q, ok_fields in allowed.items():
+        f = prog.fn(q, nparams=2)
+        bad = sorted({p[0] for r, p, k in E.of(f) if r == 'this' and p and p[0] not in ok_fields})
+        whole = [e for e in E.of(f) if e[0] == 'this' and not e[1]]
+        if bad or whole:
+            res.viol(rule, f.sig.split('(')[0].split('::')[-2] + '::read', f.loc(),
+                     'the record reader also modifies %s: members that the record does not encode are lost when records arrive in another order '
+                     '(e.g. a parameter record before its group record)' % (bad or 'the whole object'), function=f.sig, expr='effects')
+        else:
+            res.ok(rule, f.sig.split('(')[0].split('::')[-2] + '::read', f.loc(), 'modifies only %s' % sorted(ok_fields), function=f.sig, expr='effects')
